@@ -238,10 +238,7 @@ def dead_value_ok(v, want):
 
 def result_root_pred(code, call):
     def is_root(x):
-        x = peel(x)
-        if isinstance(x, tuple) and x[0] == "await":
-            x = peel(x[1])
-        return isinstance(x, tuple) and x[0] == "call" and x[1] == call.bb
+        return roles.is_result_of(x, call.bb)
     return is_root
 
 
